@@ -24,32 +24,58 @@ var hLabelPool06 = []model.LabelSet{
 	{"alertname": "A", "cluster": "c1", "env": "prod", "extra": "x"},
 }
 
-// VerifC06_GroupLabels: for every group_by setting (any subset of three label names,
-// the empty list, or '...') and every pair of label sets from a pool (labels present,
+// VerifC06_GroupLabels: for every group_by setting (unset, any subset of three label
+// names, the empty list, or '...') on a root route or on a child below a parent with
+// any such setting (unset inherits, anything set replaces) and every pair of label sets from a pool (labels present,
 // absent, empty-valued, extra labels): the group labels of an alert are exactly its own
 // labels restricted to group_by (all of them for '...'), and two alerts fall into the
 // same group iff they agree on those labels.
 //
 //vf:bounds unwind=16 decisions=200
-//vf:expect reach=same-group reach=different-group reach=group-by-all
+//vf:expect reach=same-group reach=different-group reach=group-by-all reach=nested
 func VerifC06_GroupLabels() {
-	cr := &config.Route{Receiver: "r"}
-	all := vfBool("groupByAll")
 	names := []model.LabelName{"alertname", "cluster", "env"}
-	by := map[model.LabelName]bool{}
-	if all {
-		cr.GroupByAll = true
-		vfReach("group-by-all")
-	} else {
-		cr.GroupBy = []model.LabelName{}
-		for _, n := range names {
-			if vfBool("by") {
-				cr.GroupBy = append(cr.GroupBy, n)
-				by[n] = true
+	// a route's own group_by: unset (inherit), an explicit list (any subset, also the
+	// empty list) or '...'
+	own := func(tag string, cr *config.Route) (set, all bool, by map[model.LabelName]bool) {
+		by = map[model.LabelName]bool{}
+		switch vfChoice(tag+".groupBy", 3) {
+		case 0:
+			return false, false, by
+		case 1:
+			cr.GroupBy = []model.LabelName{}
+			for _, n := range names {
+				if vfBool(tag + ".by") {
+					cr.GroupBy = append(cr.GroupBy, n)
+					by[n] = true
+				}
 			}
+			return true, false, by
+		default:
+			cr.GroupByAll = true
+			return true, true, by
 		}
 	}
-	route := NewRoute(cr, nil)
+	cr := &config.Route{Receiver: "r"}
+	set, all, by := own("route", cr)
+	var route *Route
+	if vfBool("nested") {
+		// the route is a child: an unset group_by is inherited from the parent, a set
+		// one (the empty list included) replaces the parent's
+		pr := &config.Route{Receiver: "p", Routes: []*config.Route{cr}}
+		pset, pall, pby := own("parent", pr)
+		route = NewRoute(pr, nil).Routes[0]
+		if !set {
+			set, all, by = pset, pall, pby
+		}
+		vfReach("nested")
+	} else {
+		route = NewRoute(cr, nil)
+	}
+	_ = set // nowhere set: the default, one group for everything
+	if all {
+		vfReach("group-by-all")
+	}
 	l1 := hLabelPool06[vfChoice("a1", len(hLabelPool06))]
 	l2 := hLabelPool06[vfChoice("a2", len(hLabelPool06))]
 	a1, a2 := &alert.Alert{}, &alert.Alert{}
